@@ -1,5 +1,6 @@
 import Aqv.Base.Proto
 import Aqv.Model.TxPool
+import Aqv.Model.TxPriced
 open Aqv Aqv.Proto Aqv.TxPool
 
 /-!
@@ -64,6 +65,23 @@ def parseState (cfg : Cfg) (fs : List String) : Pool × Nat :=
      pnonce := fun a => get a 2, cnonce := fun a => get a 0, balance := fun a => get a 1,
      maxGas := nat! (kv fs "mg"), gasPrice := nat! (kv fs "gp"),
      locals := accts.filter (fun a => get a 3 == 1), accts := accts }, k)
+
+def parsePriced (fs : List String) : Priced :=
+  { items := parseTxs (kv fs "ph"), stales := ((kv fs "ps").toInt?).getD 0 }
+
+def countOf (x : Tx) (l : List Tx) : Nat := (l.filter (· == x)).length
+def sameMultiset (a b : List Tx) : Bool := a.length == b.length && a.all (fun x => countOf x a == countOf x b)
+
+/-- does the model's price list reproduce the observed one? `order` = same sizes and stale counter but another content,
+    which happens when a reheap fell inside a batch of deletes that Go performs in map order -/
+def pricedDiff (m o : Priced) (oall : List Tx) : Option String :=
+  if !m.exact then some "priced: a heap operation failed its check (array not a heap)"
+  else if !isHeap o.items then some "priced: observed array is not a heap"
+  else if !(oall.all (fun t => decide (t ∈ o.items))) then some "priced: observed heap does not cover all"
+  else if m.stales != o.stales then some s!"priced: stales model {m.stales} go {o.stales}"
+  else if m.items.length != o.items.length then some s!"priced: length model {m.items.length} go {o.items.length}"
+  else if !sameMultiset m.items o.items then some "priced-order"
+  else none
 
 def capsSound (l : TxL) : Bool := l.items.all (fun t => decide (t.cost ≤ l.costcap) && decide (t.gas ≤ l.gascap))
 
@@ -215,6 +233,49 @@ def runReset (gapFix : Bool) (k : Nat) (s o : Pool) (v : View) (oldNum newNum : 
   let fin := (promoteInfer k s3 none o).1
   (diffState k fin o, r.sawFull || early)
 
+/-! ### the concrete machine (victims from the dumped price heap, no search) -/
+
+def firstSome (a b : Option String) : Option String := match a with | some x => some x | none => b
+
+def cRunAdd (k : Nat) (s o : Pool) (P oP : Priced) (t : Tx) (loc : Bool) (sh : Shape) (res : String) : Option String :=
+  let c : CPool := ⟨s, P⟩
+  let r := c.add t (loc && !s.cfg.noLocals) sh
+  let fin : CPool :=
+    if r.1 = .ok && !r.2.1 then
+      let inf := promoteInfer k r.2.2.2.pool (some [t.sender]) o
+      r.2.2.2.promoteExecutables (some [t.sender]) inf.2.1 inf.2.2
+    else r.2.2.2
+  if errName r.1 != res then some s!"result: concrete model {errName r.1} go {res}"
+  else firstSome (diffState k fin.pool o) (pricedDiff fin.priced oP o.all)
+
+def cRunPrice (k : Nat) (s o : Pool) (P oP : Priced) (p : Nat) : Option String :=
+  let r := (⟨s, P⟩ : CPool).setGasPrice p
+  firstSome (diffState k r.2.pool o) (pricedDiff r.2.priced oP o.all)
+
+def cRunAdds (k : Nat) (s o : Pool) (P oP : Priced) (ts : List Tx) (loc : Bool) (res : String) : Option String :=
+  let c : CPool := ⟨s, P⟩
+  let r := c.addMany (loc && !s.cfg.noLocals) ts
+  let fin : CPool :=
+    if r.2.1.isEmpty then r.2.2.2
+    else
+      let inf := promoteInfer k r.2.2.2.pool (some r.2.1.eraseDups) o
+      r.2.2.2.promoteExecutables (some r.2.1.eraseDups) inf.2.1 inf.2.2
+  let rs := if r.1.isEmpty then "-" else ",".intercalate (r.1.map errName)
+  if rs != res then some s!"result: concrete model {rs} go {res}"
+  else firstSome (diffState k fin.pool o) (pricedDiff fin.priced oP o.all)
+
+def cRunReset (k : Nat) (s o : Pool) (P oP : Priced) (v : View) (oldNum newNum : Nat) (reorg : Bool) (disc inc : List Tx) :
+    Option String :=
+  let depth := if oldNum ≤ newNum then newNum - oldNum else oldNum - newNum
+  let reinject := if reorg && decide (depth ≤ 64) then txDifference disc inc else []
+  let c0 : CPool := ⟨{ s with cnonce := v.nonce, balance := v.balance, maxGas := v.maxGas, pnonce := v.nonce }, P⟩
+  let c1 : CPool := if reinject.isEmpty then c0 else (c0.addTxs reinject false [] []).2.2
+  let c2 := c1.with (c1.pool.demoteUnexecutables true) (evDemoteUnexecutables c1.pool)
+  let c3 : CPool := ⟨c2.pool.syncNonces, c2.priced⟩
+  let inf := promoteInfer k c3.pool none o
+  let fin := c3.promoteExecutables none inf.2.1 inf.2.2
+  firstSome (diffState k fin.pool o) (pricedDiff fin.priced oP o.all)
+
 /-! ### Spec on the observed transition -/
 
 def invFail (k : Nat) (o : Pool) : Option String :=
@@ -249,18 +310,18 @@ def replacementFail (k : Nat) (s o : Pool) (adds : Nat) : Option String :=
 
 def validNow (o : Pool) (t : Tx) : Bool := o.validateTx t false .wellformed == .ok
 
-/-- reorg clause (judged with slack limits, shallow reorgs; see harness CheckReorg) -/
+/-- reorg clause, judged where the theorems apply (room in the pool, or local sender; shallow reorgs): see harness CheckReorg -/
 def reorgFail (s o : Pool) (oldNum newNum : Nat) (reorg : Bool) (disc inc : List Tx) : Option String :=
   let depth := if oldNum ≤ newNum then newNum - oldNum else oldNum - newNum
   if !reorg || depth > 64 then none
   else
     let re := txDifference disc inc
     let total := s.all.length + re.length
-    if total ≥ s.cfg.globalSlots || total ≥ s.cfg.globalQueue || total ≥ s.cfg.accountQueue then none
-    else
-      match re.find? (fun t => validNow o t && !pooledB o t && (slotOccupant o t.sender t.nonce).isNone) with
-      | some t => some s!"reorg-reinject:{renderTx t}"
-      | none => none
+    let room := decide (total ≤ s.cfg.globalSlots) && decide (total ≤ s.cfg.globalQueue) && decide (total ≤ s.cfg.accountQueue)
+    match re.find? (fun t => (room || s.isLocal t.sender) && validNow o t && !pooledB o t &&
+        (slotOccupant o t.sender t.nonce).isNone) with
+    | some t => some s!"reorg-reinject:{renderTx t}"
+    | none => none
 
 /-- is a `run` failure after a reset the known re-injection hole? (chain nonce moved back below the old pending run and
     the first missing nonce lies in the re-injected range) -/
@@ -277,6 +338,21 @@ def handle (l : String) : String :=
   let cfg := parseCfg (kv fi "cfg")
   let (s, k) := parseState cfg fi
   let (o, _) := parseState cfg fo
+  let P := parsePriced fi
+  let oP := parsePriced fo
+  -- the concrete machine first; the oracle search only when the heap order could not be predicted (a reheap or a batch of
+  -- Puts in Go map order inside the same operation)
+  -- `multi`: the operation walks several accounts in Go map order (batch add, reset); then the moment a reheap falls and
+  -- with it the size of the heap and the stale counter depend on that order: sizes are not compared, the observed heap
+  -- still has to be a heap covering `all`
+  let both (multi : Bool) (conc : Option String) (abs : Option String × Bool) : Option String × Bool :=
+    match conc with
+    | none => (none, false)
+    | some w =>
+      if w == "priced-order" || (multi && (w.startsWith "priced: stales" || w.startsWith "priced: length")) then (none, false)
+      else match abs.1 with
+        | none => (some ("concrete: " ++ w), false)   -- the oracle model matches, the heap prediction does not
+        | some a => (some a, abs.2)
   let res := kv fo "res"
   let op := kv fi "op"
   let arg (k : String) : String := kv fi ("o." ++ k)
@@ -312,13 +388,15 @@ def handle (l : String) : String :=
     | some t =>
       let shp := arg "kind"
       let sh : Shape := if shp == "1" then .oversized else if shp == "2" then .badsig else .wellformed
-      finish 1 false false none (runAdd k s o t (arg "loc" == "1") sh res) false
+      let r := both false (cRunAdd k s o P oP t (arg "loc" == "1") sh res) (runAdd k s o t (arg "loc" == "1") sh res, false)
+      finish 1 false false none r.1 false
   | "adds" =>
     let ts := parseTxs (arg "txs")
-    let r := runAdds k s o ts (arg "loc" == "1") res
+    let r := both true (cRunAdds k s o P oP ts (arg "loc" == "1") res) (runAdds k s o ts (arg "loc" == "1") res)
     finish ts.length false false none r.1 r.2
   | "price" =>
-    finish 0 false false none (diffState k (s.setGasPrice (nat! (arg "p"))) o) false
+    let r := both false (cRunPrice k s o P oP (nat! (arg "p"))) (diffState k (s.setGasPrice (nat! (arg "p"))) o, false)
+    finish 0 false false none r.1 false
   | "reset" =>
     let disc := parseTxs (arg "disc")
     let inc := parseTxs (arg "inc")
@@ -326,9 +404,8 @@ def handle (l : String) : String :=
     let newN := nat! (arg "new")
     let v := parseView (arg "view") (nat! (arg "mg"))
     let reorg := arg "lin" != "1"
-    let a := runReset true k s o v oldN newN reorg disc inc
-    let d := a.1
-    finish disc.length true true (reorgFail s o oldN newN reorg disc inc) d a.2
+    let r := both true (cRunReset k s o P oP v oldN newN reorg disc inc) (runReset true k s o v oldN newN reorg disc inc)
+    finish disc.length true true (reorgFail s o oldN newN reorg disc inc) r.1 r.2
   | _ => "bad-op\tagree"
 
 def main : IO Unit := runLines handle
